@@ -87,6 +87,12 @@ CHECKS = {
    design_ref="DESIGN.md section 6 C04",
    note=COMMON_NOTE + "Translated: Gen/ProcessEffects.v (syntactic extraction; rules in translator/src/effects.rs; state_repo.insert/get_epoch_mut assumed atomic). Defects F2a (signer swapped early) and F2b (pending_reinit set early) found and repaired (fix: 4d33d663, c353bee5).",
    technique="Coq proof (sound transactionality checker over source-extracted effect order) + exhaustive before/after state comparison"),
+ "C10": dict(
+   category="proof",
+   text="Coq theorems (Props/C10.v) over a model of the proposal rules of apply_proposals_from_member and of the three conflict passes of batch_edit, each with the two strategies of the code (committer: drop offending by-reference proposals, fail on offending by-value ones; receiver: fail on any offender): every stage is lawful (result is a sublist that passes; passing is closed under sublists; a passing list is returned unchanged), hence for EVERY context and proposal list whatever the committer keeps is accepted unchanged by a receiver, a receiver applies all or nothing, and only by-reference proposals are ever dropped. Tie: 60 (thorough 600) generated 'messy' epochs (repeated / conflicting updates, removals, adds, PSKs known/unknown to the committer, multiple group-context-extensions, re-init among others, valid and invalid by-value parts): build failure / applied / unused of the library equal the model evaluated in Coq; every other member accepts the commit and reports the same applied / unused lists as the committer.",
+   design_ref="DESIGN.md section 6 C10",
+   note=COMMON_NOTE + "Hand-modelled: Model/Filter.v (attributes instead of real proposals; validity verdicts of key packages / leaf nodes / extensions are inputs). External-sender and new-member proposals are in the model's sender table but not generated by the correspondence run. Defect F11 found and repaired (fix: 4000eabf).",
+   technique="Coq proof (stage laws => strategy agreement) + randomized conflicting-proposal correspondence"),
 }
 NOT_YET = {}
 props = [json.loads(l) for l in open(os.path.join(V, "properties.jsonl"))]
